@@ -806,7 +806,10 @@ def _slice_checks(ctx, rg, sspec, tspec, skipna, vals, nanmask, out, use_model):
         k = na * nc
         mmask = np.array([int(v) for v in mm[:k]]); mfrac = np.array([float(v) for v in mm[2 * k:]])
         # entries whose not-null fraction sits on a decision threshold up to rounding are not compared
-        amb = (np.abs(np.abs(mfrac - 1) - tol) < slack) if not skipna else ((mfrac > 0) & (mfrac < slack)) | ((mfrac == 0) != (frac.ravel() <= slack))
+        # (skipna: a valid cell that merely touches the target cell has weight exactly 0 in the model but may get a
+        #  rounding-size weight in floating point, and vice versa)
+        touch_valid = np.einsum('ab,cd,bd->ac', ref_touch(rslon, rtlon, True), ref_touch(rslat, rtlat, False), good).ravel()
+        amb = (np.abs(np.abs(mfrac - 1) - tol) < slack) if not skipna else ((mfrac < slack) & (touch_valid > 0))
         ctx.count('2d:ambiguous threshold entries', int(amb.sum()))
         ctx.exact('ConservativeRegridder NaN mask', np.where(amb, -1, (~isn).ravel().astype(int)).tolist(), np.where(amb, -1, mmask).tolist())
         both = (~amb) & (mmask == 1) & (~isn.ravel())
